@@ -113,9 +113,16 @@ def run_config(chk, tier, cfgname):
                     bt = _place_ty(prog, b, {"l": s["p"]["l"], "p": s["p"]["p"][:-1]})
                     if bt is not None and prog.adt_of(bt) == rules_builder.SB:
                         il_writers.append(norm(d_raw))
+    # besides write_slice_with (whose discipline has its own rules) only functions whose element type is `Copy` may
+    # record a length: such elements have no destructor, so the record cannot make Drop destruct uninitialised memory
+    def copy_only(fn):
+        f = (prog.fn_n.get(fn) or [None])[0]
+        return bool(f) and any(p_["k"] == "trait" and p_["trait"] == "core::marker::Copy" for p_ in f.get("predicates", []))
+    extra_w = [w for w in sorted(set(il_writers)) if w != rules_builder.WSW and not copy_only(w)]
     chk.inst("init_length-writers", "slice::GcSliceWithHeaderSliceBuilder.init_length",
-             sorted(set(il_writers)) == [rules_builder.WSW],
-             detail="init_length is assigned in %s (must be only write_slice_with, after each element write)" % sorted(set(il_writers)))
+             rules_builder.WSW in il_writers and not extra_w,
+             detail="init_length is also assigned in %s (only write_slice_with, after each element write, or a function over "
+                    "`Copy` elements may record an initialised length)" % extra_w)
     # ---- copy_slice on the ordering domain
     copy_slice(chk, prog)
     for fn, via in (("slice::GcSliceBuilder::copy_slice", "slice::GcSliceWithHeaderSliceBuilder::copy_slice"),
@@ -196,7 +203,14 @@ def copy_slice(chk, prog):
                 probs.append("copy without completing the builder")
         else:
             if o.kind == "return":
-                probs.append("returns without copying")
+                # nothing to copy for an empty slice: fine when the path has established that the (equal) lengths are 0
+                def mentions_len(v):
+                    return "builder_len" in str(v) or "elements_len" in str(v)
+                empty = rel == frozenset("=") and any(
+                    r == frozenset("=") and ((a == I(0) and mentions_len(b)) or (b == I(0) and mentions_len(a)))
+                    for (a, b), r in o.st.cons.items())
+                if not (empty and any(e[0] == "assume_init" for e in o.ev)):
+                    probs.append("returns without copying")
             if o.kind == "unwind":
                 failed += 1
                 if not any(e[0] == "builder_dropped" for e in o.ev):
